@@ -31,6 +31,8 @@ VARIANTS = {
              "ldflags": ["-fsanitize=address,undefined"]},
     "tsan": {"cxx": "g++", "cflags": ["-O1", "-g", "-fsanitize=thread"], "ldflags": ["-fsanitize=thread"]},
     "omp": {"cxx": "g++", "cflags": ["-O2", "-g1", "-fopenmp"], "ldflags": ["-fopenmp"]},
+    # a documented Eigen build option of the USER's translation unit: matrices without an explicit storage order are row-major
+    "rowmajor": {"cxx": "g++", "cflags": ["-O2", "-g1", "-DEIGEN_DEFAULT_TO_ROW_MAJOR"], "ldflags": []},
     # line coverage of the library headers under the monitors' workloads (scripts/coverage.py; not part of any check)
     "cov": {"cxx": "g++", "cflags": ["-O1", "-g1", "--coverage", "-fprofile-update=atomic"], "ldflags": ["--coverage"]},
 }
@@ -119,7 +121,7 @@ def target(name, tier="quick", variant="plain"):
     structural class: DIM=1 column-major, DIM=3 fixed small, DIM=4 the generic >3 branch); drivers enumerate the
     cells that are registered, so the reduction needs no other change."""
     thorough = tier == "thorough"
-    reduced = variant in ("asan", "nanpoison", "omp", "tsan")
+    reduced = variant in ("asan", "nanpoison", "omp", "tsan", "rowmajor")
     if name == "spline_driver":
         dims = [1, 3, 4] if reduced else (ALL_DIMS if thorough else QUICK_DIMS)
         return [TU("spline_driver.cpp", repo=())] + COMMON + spline_adapters(dims), ["-lquadmath"]
